@@ -97,7 +97,8 @@ fn families(t: Tier) -> Vec<Fam> {
     }
     v
 }
-const CENTRES: [f64; 5] = [-5.0, -1.3, 0.0, 0.7, 4.0];
+// (0.25 with length 0.5 and 2.0 with length 4 put an end point exactly at 0)
+const CENTRES: [f64; 7] = [-5.0, -1.3, 0.0, 0.25, 0.7, 2.0, 4.0];
 const LENGTHS: [f64; 4] = [0.05, 0.5, 1.0, 4.0];
 const ROUTINES: [&str; 3] = ["integrate", "integrate_gaussian", "integrate_simpson"];
 
